@@ -37,6 +37,12 @@ impl Cfg {
     }
 }
 
+/// Are findings made while *constructing and validating roots* violations of the property being
+/// checked? Only for C03 (hidden state after any history, constructors included); every other
+/// property drops a root that does not validate (counted as `roots_rejected_by_validation`), because
+/// the root is not a result of the operations that property speaks about.
+pub static ROOT_FINDINGS_COUNT: std::sync::atomic::AtomicBool = std::sync::atomic::AtomicBool::new(false);
+
 /// Run-wide set of representations that already went through the battery.
 pub struct Seen {
     shards: Vec<Mutex<HashSet<Raw>>>,
